@@ -575,7 +575,7 @@ Definition eq_res (a b : container) : outcome :=
 (* detector.<bucket> = o *)
 Definition det_assign (c : container) (o : container) : container * outcome :=
   match det_setter tb (c_kind c) with
-  | SetterNone => (c, Unmodelled)
+  | SetterNone => (c, Raise OtherError)          (* a property without setter: AttributeError *)
   | SetterRaw => (with_content c (c_content o), Done)
   | SetterValidating =>
       match read2d o with
